@@ -675,7 +675,26 @@ def set_method(self, st, ref, o, name, args, kwargs, node):
         if ok:
             return [(st, "val", st.alloc(HObj("set", kind="set", items=items)))]
         return [(st, "val", st.alloc(HObj("set", kind="set", items=None)))]
+    if name in ("isdisjoint", "issubset", "issuperset") and o.items is not None and len(args) == 1 and not isinstance(args[0], Top):
+        try:
+            kind, seq = self.iter_values(st, args[0], node)
+        except AnalysisError:
+            kind, seq = None, None
+        if kind == "concrete":
+            seq = list(seq)
+            if not any(isinstance(x, Top) for x in list(o.items) + seq):
+                return [(st, "val", set_relation(self, st, name, o.items, seq))]
     return [(st, "val", Top("set." + name))]
+
+
+def set_relation(self, st, name, mine, other):
+    def inside(x, ys):
+        return any(_same_member(self, st, x, y) for y in ys)
+    if name == "isdisjoint":
+        return not any(inside(x, other) for x in mine)
+    if name == "issubset":
+        return all(inside(x, other) for x in mine)
+    return all(inside(x, mine) for x in other)
 
 
 def construct(self, st, cv, args, kwargs, node):
